@@ -72,32 +72,37 @@ structure Attrs where
 
 def intText (i : Int) : List Char := (toString i).toList
 
+/-- SameSite canonicalisation: `samesite.title()` must be one of the three words; `.error` = ValueError -/
+def canonSameSite (ss : Option (List Char)) : Except String (Option (List Char)) :=
+  match ss with
+  | none => .ok none
+  | some s =>
+    let t := titleAscii s
+    if t == "Strict".toList || t == "Lax".toList || t == "None".toList then .ok (some t)
+    else .error "ValueError"
+
+def kvPart (k : String) (v : Option (List Char)) : List (List Char) :=
+  match v with | none => [] | some x => [k.toList ++ '=' :: x]
+
+def flagPart (k : String) (b : Bool) : List (List Char) := if b then [k.toList] else []
+
+/-- the attribute parts in `dump_cookie`'s fixed order (Partitioned implies Secure) -/
+def attrParts (a : Attrs) (ss : Option (List Char)) : List (List Char) :=
+  kvPart "Domain" a.domain ++ kvPart "Expires" a.expires ++ kvPart "Max-Age" (a.maxAge.map intText)
+    ++ flagPart "Secure" (a.secure || a.partitioned) ++ flagPart "HttpOnly" a.httponly
+    ++ kvPart "Path" a.path ++ kvPart "SameSite" ss ++ flagPart "Partitioned" a.partitioned
+
 /-- `dump_cookie` after the opaque sub-steps; `.error` = the exception class that escapes
 (`ValueError` for a bad SameSite, or an escape failure). -/
 def dumpCookie (key : List Char) (value : List Char) (a : Attrs) : Except String (List Char) :=
-  let ss : Except String (Option (List Char)) :=
-    match a.samesite with
-    | none => .ok none
-    | some s =>
-      let t := titleAscii s
-      if t == "Strict".toList || t == "Lax".toList || t == "None".toList then .ok (some t)
-      else .error "ValueError"
-  match ss with
+  match canonSameSite a.samesite with
   | .error e => .error e
   | .ok ss =>
     match dumpValue value with
     | .error e => .error e
     | .ok hv =>
-      let secure := a.secure || a.partitioned
-      let kv (k : String) (v : Option (List Char)) : List (List Char) :=
-        match v with | none => [] | some x => [k.toList ++ '=' :: x]
-      let fl (k : String) (b : Bool) : List (List Char) := if b then [k.toList] else []
-      let parts : List (List Char) :=
-        [Py.latin1Dec (utf8Enc key) ++ '=' :: hv]
-          ++ kv "Domain" a.domain ++ kv "Expires" a.expires ++ kv "Max-Age" (a.maxAge.map intText)
-          ++ fl "Secure" secure ++ fl "HttpOnly" a.httponly ++ kv "Path" a.path
-          ++ kv "SameSite" ss ++ fl "Partitioned" a.partitioned
-      .ok (List.intercalate "; ".toList parts)
+      .ok (List.intercalate "; ".toList
+        ((Py.latin1Dec (utf8Enc key) ++ '=' :: hv) :: attrParts a ss))
 
 /-! ### parsing -/
 
